@@ -29,7 +29,8 @@ ClauseVerdict(tr) ==
       out == tr.obs.outcome
       oh  == IF tr.entry = "waitnoecho" THEN 2 ELSE 0
       mBefore == \E i \in 1..Len(tr.events) : tr.events[i][2] = "m" /\ (~fin \/ tr.events[i][1] < tr.start + te)
-      cs == << <<out # "BLOCK", "C05:blocks-after-hangup-without-exit">>,
+      cs == << <<out # "HUNG", "C05:call-did-not-return">>,        \* stopped by the harness: reads without end / no return in wall-clock time
+               <<out # "BLOCK", "C05:blocks-after-hangup-without-exit">>,
                <<out \in {"match", "EOF", "TIMEOUT", "True", "False"}, "C05:other-exception">>,
                <<~fin => out \notin {"TIMEOUT", "False"}, "C05:timeout-with-timeout-None">>,
                <<(out \in {"TIMEOUT", "False"} /\ fin) => el >= te, "C05:timeout-before-deadline">>,
